@@ -311,7 +311,27 @@ def chk_assemble(c):
             assert np.abs(B - E).max() <= TOL * scale, 'component %d: max difference %g' % (i, np.abs(B - E).max())
 
 
-CHECKS = {'assemble': chk_assemble}
+def chk_vector_blocks(c):
+    """meaning of the surface syntax for vector-valued functions whose number of components differs from the space dimension (the
+    Jacobians are non-square): component-wise forms assemble to block-diagonal matrices of the scalar form -- a reference that does not
+    go through the form's own expression tree"""
+    from pyiga import assemble, bspline, geometry
+    import scipy.sparse
+    dim, nc = c['dim'], c['ncomp']
+    kvs = tuple(bspline.make_knots(1 + (d + c['seed']) % 2, 0.0, 1.0, 2 + d % 2) for d in range(dim))
+    geo = geometry.unit_square().rotate_2d(0.3).scale((1.5, 0.75)) if dim == 2 else geometry.twisted_box()
+    scalar = {'laplace': 'inner(grad(u), grad(v)) * dx', 'mass': 'u * v * dx'}[c['form']]
+    vec = {'laplace': 'inner(grad(u), grad(v)) * dx', 'mass': 'inner(u, v) * dx'}[c['form']]
+    K = assemble.assemble(scalar, kvs, geo=geo)
+    A = assemble.assemble(vec, kvs, bfuns=[('u', nc), ('v', nc)], geo=geo, layout='blocked')
+    ref = scipy.sparse.block_diag([K] * nc).toarray()
+    A = A.toarray() if hasattr(A, 'toarray') else np.asarray(A)
+    assert A.shape == ref.shape, 'vector form with %d components in %dD has shape %r, expected %r' % (nc, dim, A.shape, ref.shape)
+    err = np.max(np.abs(A - ref))
+    assert err <= 1e-11 * max(1.0, np.max(np.abs(ref))), '%s with %d components in %dD differs from blockdiag of the scalar form: max error %g' % (vec, nc, dim, err)
+
+
+CHECKS = {'assemble': chk_assemble, 'vector_blocks': chk_vector_blocks}
 
 
 def _usable(spec):
@@ -378,11 +398,22 @@ def warmup(tier):
         rng = random.Random(k)
         case = {'spec': s, 'kvs': _kvs_for(s, rng, 0), 'kvs2': _second_space(_kvs_for(s, rng, 0), 1), 'geo': 'bump'}
         jobs.append(lambda case=case: chk_assemble(case))
+    for case in _vector_block_cases(tier):
+        jobs.append(lambda case=case: chk_vector_blocks(case))
     return jobs
+
+
+def _vector_block_cases(tier):
+    out = [{'dim': 3, 'ncomp': 2, 'form': 'laplace', 'seed': 0}, {'dim': 2, 'ncomp': 3, 'form': 'laplace', 'seed': 1}]
+    if tier != 'quick':
+        out += [{'dim': 2, 'ncomp': 3, 'form': 'mass', 'seed': 0}, {'dim': 3, 'ncomp': 2, 'form': 'mass', 'seed': 1}, {'dim': 2, 'ncomp': 1, 'form': 'laplace', 'seed': 0}]
+    return out
 
 
 def generate(tier, rng):
     quick = tier == 'quick'
+    for case in _vector_block_cases(tier):
+        yield 'vector_blocks', case
     # two-space (Petrov-Galerkin) forms: degree gaps in both directions on the non-affine map (the node count is max degree over BOTH spaces + 1)
     brs = [[0.0, 0.5, 1.0], [0.0, 0.3, 0.55, 1.0]]
     for s in specs(tier):
